@@ -593,17 +593,27 @@ class Workspace(AbstractContextManager):
         else:
             self._root = self.create_entity(RootGroup, save_on_creation=False)
 
+            # Load from the top of the hierarchy only: an entity met before its parent
+            # would otherwise stay attached to the re-created root.
+            candidates = []
+            children: set = set()
             for entity_type in ["group", "object"]:
-                uuids = self._io_call(H5Reader.fetch_uuids, entity_type, mode="r")
+                for uid in self._io_call(H5Reader.fetch_uuids, entity_type, mode="r"):
+                    candidates.append((uid, entity_type))
+                    children.update(
+                        self._io_call(
+                            H5Reader.fetch_children, uid, entity_type, mode="r"
+                        )
+                    )
 
-                for uid in uuids:
-                    if isinstance(self.get_entity(uid)[0], Entity):
-                        continue
+            for uid, entity_type in candidates:
+                if uid in children or isinstance(self.get_entity(uid)[0], Entity):
+                    continue
 
-                    recovered_object = self.load_entity(uid, entity_type)
+                recovered_object = self.load_entity(uid, entity_type)
 
-                    if isinstance(recovered_object, (Group, ObjectBase)):
-                        self.fetch_children(recovered_object, recursively=True)
+                if isinstance(recovered_object, (Group, ObjectBase)):
+                    self.fetch_children(recovered_object, recursively=True)
 
     def remove_children(self, parent, children: list):
         """
